@@ -148,6 +148,7 @@ pub fn make_case(c: &CaseRef, fx: &Fixtures) -> Option<(String, Cfg, String)> {
             let (s, cfg) = mal_case(c.idx, fx);
             Some((s, cfg, "mal".into()))
         }
+        "mut" => Some(mut_case(c.idx, fx)),
         _ => None,
     }
 }
@@ -160,6 +161,7 @@ pub fn universe_size(gen: &str, fx: &Fixtures) -> u64 {
         "imp" => IMP_U,
         "nl" => NL_U,
         "mal" => MAL_U,
+        "mut" => MUT_U,
         "range" => other::RANGE_U,
         "cli" => cli::CLI_U,
         _ => 0,
@@ -349,6 +351,7 @@ fn run_printer(prop: &str, tier: &str, seed: u64, outdir: &str, only: Option<(&'
         let thorough = tier == "thorough";
         let (nfix, nexh, ngram, nimp) = if thorough { (u64::MAX, u64::MAX, 300_000, 20_000) } else { (6_000, 8_000, 12_000, 1_000) };
         select("nl", NL_U, if thorough { 60_000 } else { 4_000 }, seed, &mut cases);
+        select("mut", MUT_U, if thorough { 150_000 } else { 10_000 }, seed, &mut cases);
         select("fix", universe_size("fix", &fx), nfix, seed, &mut cases);
         select("exh", universe_size("exh", &fx), nexh, seed, &mut cases);
         select("gram", GRAM_U, ngram, seed, &mut cases);
@@ -525,6 +528,7 @@ fn main() {
                 "exh" => "exh",
                 "imp" => "imp",
                 "nl" => "nl",
+                "mut" => "mut",
                 _ => "mal",
             };
             run_printer(&args[2], "thorough", 0, &args[6], Some((gen, args[4].parse().unwrap(), args[5].parse().unwrap())));
@@ -601,6 +605,18 @@ fn main() {
                     }
                 }
                 line.clear();
+            }
+        }
+        // vh show <gen> <idx>: the source and configuration of a case
+        "show" => {
+            let fx = Fixtures::load(FIXTURE_ROOT, true);
+            let gen: &'static str = match args[2].as_str() { "fix" => "fix", "gram" => "gram", "exh" => "exh", "imp" => "imp", "nl" => "nl", "mut" => "mut", _ => "mal" };
+            match make_case(&CaseRef { gen, idx: args[3].parse().unwrap_or(0) }, &fx) {
+                Some((s, cfg, d)) => {
+                    eprintln!("{:?} {}", cfg, d);
+                    print!("{}", s);
+                }
+                None => eprintln!("no such case"),
             }
         }
         "fmtlist" => other::fmtlist(&args[2]),
